@@ -8,8 +8,8 @@ Fixpoint hitem_eqb (a b : hitem) {struct a} : bool :=
   match a, b with
   | HStr x, HStr y => str_eqb x y
   | HS n, HS m => Nat.eqb n m
-  | HTab, HTab | HLb, HLb => true
-  | HSpan k1, HSpan k2 =>
+  | HTab, HTab | HLb, HLb | HNote, HNote => true
+  | HSpan k1, HSpan k2 | HLink k1, HLink k2 =>
     (fix go (l1 l2 : list hitem) {struct l1} : bool :=
        match l1, l2 with
        | [], [] => true
